@@ -255,6 +255,7 @@ class GenCfg(object):
         self.dup = 0.0             # probability of re-using an already generated sub-formula
         self.timed_since_until = True
         self.const_pred = 0.05     # probability of a predicate over constants only
+        self.wide = 0.0            # probability that a bounded once/historically/eventually/always gets a window of 64..200 samples
         self.__dict__.update(kw)
 
 
@@ -271,6 +272,17 @@ def gen_interval(rng, cfg):
         a = rng.randint(0, mb)
         b = rng.randint(a, mb)
     return (a * cfg.bound_step, b * cfg.bound_step)
+
+
+def widen(rng, cfg, o, iv):
+    """Wide windows (64..200 samples, discrete time): what an implementation that treats long windows differently
+    from short ones (block-wise extrema, candidate deques, prototypes) would meet."""
+    if iv is None or not cfg.wide or cfg.bound_step != 1 or o not in ('once', 'historically', 'eventually', 'always'):
+        return iv
+    if rng.random() >= cfg.wide:
+        return iv
+    a = rng.choice([0, 0, 0, 1, 2, 10, 70])
+    return (a, a + rng.choice([63, 64, 65, 80, 100, 127, 128, 200]))
 
 
 def gen_term(rng, cfg, d, pool=None):
@@ -390,6 +402,7 @@ def gen_phi(rng, cfg, d, pool=None):
                     o = rng.choice(['once', 'historically'])
                     timed = True
             iv = gen_interval(rng, cfg) if timed else None
+            iv = widen(rng, cfg, o, iv)
             f = N(o, sub(), sub(), ivl=iv) if o == 'since' else N(o, sub(), ivl=iv)
     else:
         cand = ['eventually', 'always']
@@ -412,6 +425,7 @@ def gen_phi(rng, cfg, d, pool=None):
             if not timed and not cfg.unbounded_future:
                 timed = True
             iv = gen_interval(rng, cfg) if timed else None
+            iv = widen(rng, cfg, o, iv)
             f = N(o, sub(), sub(), ivl=iv) if o in ('until', 'unless') else N(o, sub(), ivl=iv)
     if pool is not None:
         pool.append(f)
